@@ -20,6 +20,13 @@
       [retry_a_done], [retry_b_done]); UIntoVar; BWhenAny (when_any as a primitive derived from the header's
       composition: [conc_reap], cell).
 
+   4. Value-copy fault points (C02 / C05): outcome OValT v = a value whose copy / move constructor throws when
+      it is stored (produced only by script leaf completions).  OVal behaviour is untouched; OValT only adds match
+      arms (un_result, enc, after_first, after_second, conc_in, rep_done, retry_b_done) and, in leafev only,
+      the delivery protocol for consumers whose exception leaves their set_value (un_throw / bin_throw: the
+      completion is delivered again as OValK, which the leaf turns into OErr tcode and a catching forwarder
+      intercepts: un_in, bin_in, thrown, caught, leaf_out).  start and stop are unchanged.
+
    A sender expression is a tree over the library's algorithms; the operation state of a connected
    expression is a tree [ost] of the same shape.  Three entry points, all structurally recursive
    on the expression, mirror what can happen to a real operation state:
@@ -44,7 +51,17 @@ Local Open Scope Z_scope.
 
 Module Calc2.
 
-Inductive outcome := OVal (v : Z) | OErr (e : Z) | ODone.
+Inductive outcome := OVal (v : Z) | OErr (e : Z) | ODone
+| OValT (v : Z)     (* [Calc2 stage 4] a value whose copy / move constructor throws when somebody stores it
+                       (script completion L<id>:t<v>); travels by reference like OVal *)
+| OValK (v : Z).    (* [Calc2 stage 4] INPUT of leafev only: the same value, delivered while a consumer further
+                       up is known to throw out of its set_value (see [un_throw], [bin_throw]) *)
+(* the error code the throwing constructor throws *)
+Definition tcode : Z := 77.
+Definition tmode (o : outcome) : outcome := match o with OValK v => OValT v | _ => o end.
+Definition is_k (o : outcome) : bool := match o with OValK _ => true | _ => false end.
+(* a leaf whose set_value call exits with an exception completes with set_error instead (receiver contract) *)
+Definition leaf_out (o : outcome) : outcome := match o with OValK _ => OErr tcode | _ => o end.
 
 (* the table of user callables the generated programs use; [inr e] = throws err e *)
 Inductive fn := FAdd (k : Z) | FMul (k : Z) | FThrow (e : Z) | FThrowIf (x e : Z).
@@ -219,7 +236,7 @@ Definition apply_fn (f : fn) (x : Z) : list tev * outcome :=
 
 (* materialize: value v / error e / done as one integer *)
 Definition enc (o : outcome) : Z :=
-  match o with OVal v => 3 * v | OErr e => 3 * e + 1 | ODone => 2 end.
+  match o with OVal v => 3 * v | OErr e => 3 * e + 1 | ODone => 2 | OValT v => 3 * v | OValK v => 3 * v end.
 
 Definition un_result (k : ukind) (o : outcome) : list tev * outcome :=
   match k, o with
@@ -228,6 +245,9 @@ Definition un_result (k : ukind) (o : outcome) : list tev * outcome :=
   | UThen f, OVal v => apply_fn f v
   | UUponErr f, OErr e => apply_fn f e
   | UUponDone f, ODone => apply_fn f 0
+  | UThen f, OValT v => apply_fn f v          (* [stage 4] then.hpp:63-92 the value reaches the callable by reference *)
+  | UDoneOpt, OValT _ => ([], OErr tcode)     (* [stage 4] done_as_optional.hpp:38-44 then's callable moves the value into
+                                                 the optional: throws inside then's try (then.hpp:85-91) *)
   | _, _ => ([], o)
   end.
 
@@ -242,6 +262,9 @@ Definition after_first (k : bkind) (en : env) (o : outcome) : outcome + (env * o
   | BLetE, OErr e => inr (env_bind en e, None)
   | BLetD, ODone => inr (en, None)
   | BSeq, OVal _ => inr (en, None)
+  | BLetV, OValT _ => inl (OErr tcode)        (* [stage 4] let_value.hpp:143-149 values_ constructed in the try; :188-193 *)
+  | BSeq, OValT _ => inr (en, None)           (* [stage 4] the harness discards the value by reference (voided) *)
+  | BFinally, OValT _ => inr (en, Some (OErr tcode))   (* [stage 4] finally.hpp:374-381 the store throws: set_error path *)
   | BFinally, _ => inr (en, Some o)
   | BRetry _, OErr e => inr (env_bind en e, None)     (* [Calc2] only the environment is used, see retry_a_done *)
   | _, _ => inl o
@@ -251,6 +274,7 @@ Definition after_first (k : bkind) (en : env) (o : outcome) : outcome + (env * o
 Definition after_second (k : bkind) (sv : option outcome) (o : outcome) : outcome :=
   match k, sv, o with
   | BFinally, Some s, OVal _ => s      (* completion succeeded: the source's result *)
+  | BFinally, Some s, OValT _ => s     (* [stage 4] the completion's value is discarded by reference (voided) *)
   | _, _, _ => o                        (* otherwise the second child's own result *)
   end.
 
@@ -331,7 +355,7 @@ Fixpoint rep_loop (s : sexpr) (r0 : res) (rest : list bool) (i : nat) : nat * re
 (* the source of a repeat_effect_until node (state [ns]) completed with [o] *)
 Definition rep_done (l : list bool) (s : sexpr) (ns : nst) (sc : ost) (tr : list tev) (o : outcome) (r0 : res) : res :=
   match o with
-  | OVal _ =>
+  | OVal _ | OValT _ =>                  (* [stage 4] the source's value is discarded by reference (voided) *)
       let '(i', (sc', tr', r')) := rep_loop s r0 (skipn (n_iter ns) l) (n_iter ns) in
       match r' with
       | None => (ONode (ns_set_iter ns i') sc' OFin, tr ++ dtor s sc ++ tr', None)
@@ -394,7 +418,7 @@ Definition retry_a_done (n : nat) (a b : sexpr) (ns : nst) (sa : ost) (tr : list
 Definition retry_b_done (n : nat) (a b : sexpr) (ns : nst) (sb : ost) (tr : list tev) (ob : outcome)
            (r0a r0bl : res) : res :=
   match ob with
-  | OVal _ =>
+  | OVal _ | OValT _ =>                  (* [stage 4] the trigger's value is discarded by reference (voided) *)
       let '(sa, tra, ra) := r0a in
       let pre := tr ++ dtor b sb ++ tra in
       match ra with
@@ -449,7 +473,14 @@ Definition conc_reap (k : bkind) (c : sexpr) (r : res) : res :=
 (* a concurrent algorithm (when_all / stop_when) learns that child [i] completed with [o].
    Returns the updated node state, whether the own stop source is newly requested (the other
    child must then be told), and the final outcome if this was the last child. *)
-Definition conc_child_done (k : bkind) (ns : nst) (i : bool) (o : outcome) : nst * bool * option outcome :=
+Definition conc_in (k : bkind) (o : outcome) : outcome :=
+  match k, o with
+  | BWhenAll, OValT _ => OErr tcode     (* when_all.hpp:146-158 emplace in the try, catch -> this->set_error *)
+  | BWhenAny, OValT _ => OErr tcode     (* when_any.hpp: child | let_value(store): let_value.hpp:143-149, :188-193 *)
+  | _, _ => o                           (* stop_when's trigger value is discarded by reference (voided) *)
+  end.
+Definition conc_child_done (k : bkind) (ns : nst) (i : bool) (o0 : outcome) : nst * bool * option outcome :=
+  let o := conc_in k o0 in
   let v := match o with OVal v => v | _ => 0 end in
   let ns1 := ns_child_done ns i v in
   let newly :=
@@ -510,6 +541,42 @@ Definition finish_conc (k : bkind) (a b : sexpr) (ns : nst) (sa sb : ost) (tr : 
    registered" stop_when was leaky on this path (finding 5): *)
 Definition leaky_as_written (k : bkind) : bool := match k with BStopWhen => true | _ => false end.
 Definition leaky (k : bkind) : bool := false.
+
+(* ---- [Calc2 stage 4] values whose copy / move throws ------------------------------------------------ *)
+(* What a node does with its child's value, from the C++:
+   - forwards it by reference and lets an exception of its consumer pass through its set_value
+     ([un_fwd], [bin_fwd]): upon_error.hpp:66-68, upon_done.hpp:66-68, let_value_with_stop_source.hpp:57-62
+     (conditionally noexcept), let_done.hpp:81-85 and :167-171, retry_when.hpp source_receiver::set_value,
+     let_value.hpp:68-74 successor_receiver (declared noexcept);
+   - forwards it by reference inside a try and turns a consumer's exception into set_error
+     ([un_catch], [bin_catch]): with_query_value.hpp:46-53 (also unstoppable, get_scheduler), sequence.hpp:68-76
+     successor_receiver;
+   - consumes it without a local handler, so that the exception leaves its set_value ([un_throw],
+     [bin_throw]): into_variant.hpp:48-52 (make_tuple), let_error.hpp:88 and :189 (parameters taken by value),
+     stop_when.hpp:65-70 (result_ emplace outside any try);
+   - everything else either stores it inside its own try (the value becomes OErr tcode right there, see
+     after_first / conc_in / un_result) or hands it to a callable by reference (then, materialize + fold).
+   A throw that leaves set_value travels down to the first catching forwarder, or to the leaf, which then
+   completes with set_error: the thrower re-delivers the completion with OValK, which the leaf turns into
+   OErr tcode and a catching forwarder intercepts. *)
+Definition un_fwd (k : ukind) : bool := match k with UUponErr _ | UUponDone _ | ULetSS _ => true | _ => false end.
+Definition un_catch (k : ukind) : bool := match k with UWithQ _ _ | UUnstoppable | UWithSched _ => true | _ => false end.
+Definition un_throw (k : ukind) : bool := match k with UIntoVar => true | _ => false end.
+Definition un_in (k : ukind) (o : outcome) : outcome := if un_fwd k then o else tmode o.
+(* child i (false = a, true = b) of a binary node *)
+Definition bin_fwd (k : bkind) (i : bool) : bool :=
+  match k, i with BLetD, _ => true | BRetry _, false => true | BLetV, true => true | _, _ => false end.
+Definition bin_catch (k : bkind) (i : bool) : bool := match k, i with BSeq, true => true | _, _ => false end.
+Definition bin_throw (k : bkind) (i : bool) : bool :=
+  match k, i with BLetE, _ => true | BStopWhen, false => true | _, _ => false end.
+Definition bin_in (k : bkind) (i : bool) (o : outcome) : outcome := if bin_fwd k i then o else tmode o.
+Definition thrown (r : res) : option Z := match r with (_, _, Some (OValT v)) => Some v | _ => None end.
+(* a catching forwarder (c) whose consumer throws (the completion was delivered with OValK) *)
+Definition caught (c : bool) (o : outcome) (r : res) : res :=
+  match r with
+  | (st, tr, Some (OValT _)) => if c && is_k o then (st, tr, Some (OErr tcode)) else r
+  | _ => r
+  end.
 
 (* ---- start / stop ----------------------------------------------------------------------------------- *)
 Fixpoint start (e : sexpr) (en : env) (cx : nat) {struct e} : res :=
@@ -700,8 +767,8 @@ with stop (e : sexpr) (st : ost) (cx : nat) {struct e} : res :=
 (* returns additionally whether the leaf was found (ids are unique in well-formed expressions) *)
 Fixpoint leafev (e : sexpr) (st : ost) (id : nat) (o : outcome) (cx : nat) : res * bool :=
   match e, st with
-  | Leaf id', OLeaf false seen => if Nat.eqb id id' then ((OLeaf true seen, [], Some o), true) else ((st, [], None), false)
-  | LeafN id', OLeaf false seen => if Nat.eqb id id' then ((OLeaf true seen, [], Some o), true) else ((st, [], None), false)
+  | Leaf id', OLeaf false seen => if Nat.eqb id id' then ((OLeaf true seen, [], Some (leaf_out o)), true) else ((st, [], None), false)
+  | LeafN id', OLeaf false seen => if Nat.eqb id id' then ((OLeaf true seen, [], Some (leaf_out o)), true) else ((st, [], None), false)
   | Sched id' _, OLeaf false seen =>
       (* the queued item runs (the run-level queue addresses it by id; [o] is not used): done if stop
          was requested on the receiver's token, value otherwise *)
@@ -710,7 +777,8 @@ Fixpoint leafev (e : sexpr) (st : ost) (id : nat) (o : outcome) (cx : nat) : res
   | LeafR id' lvl, OLeaf false seen =>
       if Nat.eqb id id' then
         match o with
-        | OVal v => ((OHeld v, [TReqStop id lvl], None), true)     (* the callable runs: see the ULetSS case *)
+        | OVal v | OValT v | OValK v =>      (* [stage 4] the callable takes the value by reference *)
+            ((OHeld v, [TReqStop id lvl], None), true)     (* the callable runs: see the ULetSS case *)
         | _ => ((OLeaf true seen, [], Some o), true)
         end
       else ((st, [], None), false)
@@ -718,7 +786,12 @@ Fixpoint leafev (e : sexpr) (st : ost) (id : nat) (o : outcome) (cx : nat) : res
       (* the callable returned: the completion proceeds ([o] is not used) *)
       if Nat.eqb id id' then ((OLeaf true true, [], Some (OVal v)), true) else ((st, [], None), false)
   | Un k s, ONode ns sc _ =>
-      let '((sc', tr, r), hit) := leafev s sc id o cx in
+      let '(r0, hit) := leafev s sc id (un_in k o) cx in
+      let '(sc', tr, r) :=
+          match thrown r0 with
+          | Some v => if un_throw k then fst (leafev s sc id (OValK v) cx) else caught (un_catch k) o r0
+          | None => r0
+          end in
       match r with
       | Some oc =>
           match k with
@@ -746,7 +819,12 @@ Fixpoint leafev (e : sexpr) (st : ost) (id : nat) (o : outcome) (cx : nat) : res
       if is_seq k then
         match ph ns with
         | PFirst =>
-            let '((sa', tra, ra), hit) := leafev a sa id o cx in
+            let '(r0, hit) := leafev a sa id (bin_in k false o) cx in
+            let '(sa', tra, ra) :=
+                match thrown r0 with
+                | Some v => if bin_throw k false then fst (leafev a sa id (OValK v) cx) else caught (bin_catch k false) o r0
+                | None => r0
+                end in
             match ra with
             | None => ((ONode ns sa' sb, tra, None), hit)
             | Some oa =>
@@ -770,7 +848,12 @@ Fixpoint leafev (e : sexpr) (st : ost) (id : nat) (o : outcome) (cx : nat) : res
                 end
             end
         | _ =>
-            let '((sb', trb, rb), hit) := leafev b sb id o cx in
+            let '(r0, hit) := leafev b sb id (bin_in k true o) cx in
+            let '(sb', trb, rb) :=
+                match thrown r0 with
+                | Some v => if bin_throw k true then fst (leafev b sb id (OValK v) cx) else caught (bin_catch k true) o r0
+                | None => r0
+                end in
             match rb with
             | None => ((ONode ns sa sb', trb, None), hit)
             | Some ob =>
@@ -784,7 +867,12 @@ Fixpoint leafev (e : sexpr) (st : ost) (id : nat) (o : outcome) (cx : nat) : res
             end
         end
       else
-        let '((sa', tra, ra), hita) := if adone ns then ((sa, [], None), false) else (let (r, h) := leafev a sa id o cx in (conc_reap k a r, h)) in
+        let '((sa', tra, ra), hita) := if adone ns then ((sa, [], None), false) else (let (r0, h) := leafev a sa id (tmode o) cx in
+              let r := match thrown r0 with
+                       | Some v => if bin_throw k false then fst (leafev a sa id (OValK v) cx) else r0
+                       | None => r0
+                       end in
+              (conc_reap k a r, h)) in
         if hita then
           match ra with
           | None => ((ONode ns sa' sb, tra, None), true)
@@ -806,7 +894,7 @@ Fixpoint leafev (e : sexpr) (st : ost) (id : nat) (o : outcome) (cx : nat) : res
               end
           end
         else
-          let '((sb', trb, rb), hitb) := if bdone ns then ((sb, [], None), false) else (let (r, h) := leafev b sb id o cx in (conc_reap k b r, h)) in
+          let '((sb', trb, rb), hitb) := if bdone ns then ((sb, [], None), false) else (let (r, h) := leafev b sb id (tmode o) cx in (conc_reap k b r, h)) in
           match rb with
           | None => ((ONode ns sa sb', trb, None), hitb)
           | Some ob =>
